@@ -562,7 +562,7 @@ theorem free_merge {t : Tab} {a : AS} {L : Nat → List Nat} {k s e l r endN : N
 theorem free_refines {t : Tab} {a : AS} {L : Nat → List Nat} {k s e : Nat} (debug rcs : Bool)
     (h : Rel t a L) (hk : (k : Int) < t.heads) (hp : Pre a (.free k s e)) :
     ∃ (t' : Tab) (L' : Nat → List Nat) (l r : Nat), free debug t (hd k) (s : Int) rcs = .ok (t', if rcs then (r : Int) - l else (e : Int) - s) ∧
-      Rel t' (Runs.apply a (.free k s e)) L' ∧
+      Rel t' (Runs.apply a (.free k s e)) L' ∧ t'.heads = t.heads ∧
       (if mergeL a s then IsRun a l s else l = s) ∧ (if mergeR a e then IsRun a e r else r = e) := by
   have hp' := hp
   obtain ⟨hse, hown, hL, hR⟩ := hp
@@ -625,7 +625,7 @@ theorem free_refines {t : Tab} {a : AS} {L : Nat → List Nat} {k s e : Nat} (de
       · simp only [if_true, getSize_ok hsR hs1, hsz]
     rw [hg]
     simp only [f1]
-    refine ⟨_, _, l, r, ?_, f2, hl, hr⟩
+    refine ⟨_, _, l, r, ?_, f2, by simp, hl, hr⟩
     cases rcs <;> rfl
   · have hb : (((l : Nat) : Int) != ((endN : Nat) : Int)) = true := by
       simp only [bne_iff_ne, ne_eq]; omega
@@ -646,6 +646,6 @@ theorem free_refines {t : Tab} {a : AS} {L : Nat → List Nat} {k s e : Nat} (de
       · simp only [if_true, getSize_ok hlR3 hl13, f3]
     rw [hg]
     simp only [f1]
-    exact ⟨_, _, l, r, rfl, f2, hl, hr⟩
+    exact ⟨_, _, l, r, rfl, f2, by simp [c3.heads, c4], hl, hr⟩
 
 end Mmtk.FreeList
